@@ -22,6 +22,8 @@ LEAVES = [
     '{% firstof u v "z" %}',
     '{% firstof u "5\\" n" %}',  # balanced quotes with a backslash-escaped quote inside the string literal
     '{% firstof u "C:\\\\" %}',  # string literal ending in an escaped backslash
+    "\n",  # line structure: every token's lineno and the "on line N" of error messages are compared
+    '\n{% echo_tag v "a b" %}',  # a quoted tag that does not sit on line 1
 ]
 LEAVES_ERR = ["{% bogus %}", "{{ v|nofilter }}", "{% endif %}"]
 INCLUDES = ['{% include "inc" %}', '{% include "inc" with a=v only %}']
